@@ -36,6 +36,18 @@ def gen_dag(rng, n=None):
             nodes.append({"name": name, "kind": "Src", "V": rng.randint(0, 10 ** 6)})
             continue
         prev = ["N%d" % j for j in range(i)]
+        nums = [nd["name"] for nd in nodes if nd["kind"] == "Num"]
+        if rng.random() < 0.1:
+            nodes.append({"name": name, "kind": "Num", "V": rng.choice([5, 7, 12, 2.5])})
+            continue
+        if nums and rng.random() < 0.2:
+            node = {"name": name, "kind": "TypedOp"}
+            for k in rng.sample(["S", "N", "Any"], rng.randint(1, 3)):
+                node[k] = rng.choice(nums)
+            if rng.random() < 0.4:
+                node["LS"] = [rng.choice(nums) for _ in range(rng.randint(1, 2))]
+            nodes.append(node)
+            continue
         if rng.random() < 0.12:
             nodes.append({"name": name, "kind": "Sink", "L": [rng.choice(prev) for _ in range(rng.randint(1, 3))]})
             continue
@@ -105,6 +117,10 @@ def to_text(nodes, order):
             lines.append("%s = Src(V = %d)" % (nd["name"], nd["V"]))
         elif nd["kind"] == "Sink":
             lines.append("%s = Sink(L = %s)" % (nd["name"], _fmt(nd["L"])))
+        elif nd["kind"] == "Num":
+            lines.append("%s = Num(V = %s)" % (nd["name"], nd["V"]))
+        elif nd["kind"] == "TypedOp":
+            lines.append("%s = TypedOp(%s)" % (nd["name"], ", ".join("%s = %s" % (k, _fmt(nd[k])) for k in ("S", "N", "LS", "Any") if k in nd)))
         else:
             args = []
             for k in ("A", "B", "L", "LL", "N3"):
@@ -129,6 +145,16 @@ def reference(nodes):
                 memo[name] = ("src", name, nd["V"])
             elif nd["kind"] == "Sink":
                 memo[name] = None
+            elif nd["kind"] == "Num":
+                memo[name] = nd["V"]
+            elif nd["kind"] == "TypedOp":
+                kw = {}
+                for k in ("S", "N", "Any"):
+                    if k in nd:
+                        kw[k] = val(nd[k])
+                if "LS" in nd:
+                    kw["LS"] = deep(nd["LS"])
+                memo[name] = ("typed", name, tuple((k, kw[k]) for k in sorted(kw)))
             else:
                 kw = {}
                 for k in ("A", "B"):
